@@ -22,7 +22,7 @@ import (
 
 var c18Kinds = []string{"contribution-blob-with-null-or-partial-entries", "field-deleted", "type-confused", "negative-int", "huge-int", "empty-array", "oversized-array",
 	"short-id", "unknown-event", "unknown-round", "error-report-naming-nobody", "registered-key-of-odd-length", "junk-bytes-value", "truncated-bytes-value", "baked-range-negative", "baked-range-huge", "not-json", "null-value", "deep-nesting",
-	"sealed-deal-mutated-inside"}
+	"sealed-deal-mutated-inside", "identifier-not-a-file-name"}
 
 // mutateJSON applies one structure-aware mutation to a JSON document.
 func mutateJSON(w *World, data []byte, kind string) ([]byte, bool) {
@@ -481,6 +481,32 @@ func runC18(w *World, tier string) (bool, interface{}) {
 					// structure-aware mutation under the encryption layer: a deal addressed to this
 					// machine is opened with its key (hook H2), mutated as JSON and sealed again
 					d, ok = mutateSealedDeal(w, w.Airs[i], opJSON)
+				case "identifier-not-a-file-name":
+					// the machine names its result file after the round id (and, for a signing
+					// operation, the batch id) it finds in the operation file: ids holding a path
+					// separator, a parent-directory step, a NUL byte or more bytes than a file
+					// name may have. Whatever the machine makes of such a round, a refusal must
+					// not leave anything behind
+					var om map[string]json.RawMessage
+					if json.Unmarshal(opJSON, &om) == nil {
+						var id string
+						_ = json.Unmarshal(om["DKGIdentifier"], &id)
+						bad := []string{"a/" + id, "../" + id, "ab\x00" + id, id[:min(len(id), 3)] + "/" + id, "/" + id}[w.Tape.Choose(5, "badId")]
+						var pl []byte
+						var plm map[string]json.RawMessage
+						if strings.HasPrefix(string(o.Type), "state_signing") && json.Unmarshal(om["Payload"], &pl) == nil && json.Unmarshal(pl, &plm) == nil && w.Tape.Bool(2, 3, "batchId") {
+							var b string
+							_ = json.Unmarshal(plm["BatchID"], &b)
+							bb := []string{"x/" + b, b + "/../../x", strings.Repeat("b", 300), b + "\x00"}[w.Tape.Choose(4, "badBatch")]
+							plm["BatchID"], _ = json.Marshal(bb)
+							npl, _ := json.Marshal(plm)
+							om["Payload"], _ = json.Marshal(npl)
+						} else {
+							om["DKGIdentifier"], _ = json.Marshal(bad)
+						}
+						d, _ = json.Marshal(om)
+						ok = true
+					}
 				case "unknown-event", "unknown-round", "baked-range-negative", "baked-range-huge":
 					var om map[string]interface{}
 					if json.Unmarshal(opJSON, &om) == nil {
